@@ -509,7 +509,7 @@ def check(tier: str) -> int:
             cur = examples.get(v["key"])
             size = trace_size(trace_of(task, res))
             report.counts[v["key"]] = report.counts.get(v["key"], 0)  # counted in add()
-            if cur is None or size < cur[3]:
+            if cur is None or (size, task["engine"], task["run"]) < (cur[3], cur[0]["engine"], cur[0]["run"]):
                 examples[v["key"]] = (task, res, v, size)
             report.add(v["key"], {"size": size, "summary": {"engine": task["engine"], "run": task["run"],
                                                           "violation": _brief(v)}})
